@@ -176,7 +176,7 @@ def inject(tu_rel, injections, scratch):
                 while k > bo and m[k].isspace():
                     k -= 1
                 if at == 'before':
-                    if m[k] not in ';{}':
+                    if m[k] not in ';{}:':
                         raise Undecided('injection before %r in %s is not at a statement boundary (use at=wrap)' % (inj['match'], inj['function']))
                     inserts.append((ls, MARK_O + '\n' + inj['text'] + '\n' + MARK_C + '\n'))
                 else:
@@ -323,10 +323,32 @@ def run_harness(h, keep=False, extra_defines=()):
             if rc != 0:
                 raise Undecided('goto-cc failed on %s:\n%s' % (extra, (out + err)[-3000:]))
             gbs.append(gb)
+        # a stub in the harness must not silently lose against a real body of the same name in a TU
+        defined = []
+        for gb in gbs:
+            rc, out, err, dt = run(['goto-instrument', '--list-goto-functions', gb], cwd=scratch, timeout=120)
+            names = set()
+            for ln in out.split('\n'):
+                mo = re.match(r'^(\S+) /\* (\S+) \*/\s*$', ln)   # functions with a body ("body not available" lines do not match)
+                if mo:
+                    names.add(mo.group(1))
+            defined.append(names)
+        n_tu = len(h.tus)
+        tu_defs = set().union(*defined[:n_tu]) if n_tu else set()
+        h_defs = set().union(*defined[n_tu:]) if defined[n_tu:] else set()
+        clash = sorted(x for x in (tu_defs & h_defs) if not x.startswith('__CPROVER') and x not in ('v_streq',))
+        if clash:
+            raise Undecided('harness defines function(s) that also have a real body in a TU: %s (add them to stub_out)' % clash)
         a = os.path.join(scratch, 'a.gb')
         rc, out, err, dt = run(['goto-cc', '--function', h.entry] + gbs + ['-o', a], cwd=scratch, timeout=300)
         if rc != 0:
             raise Undecided('goto-cc link failed:\n%s' % (out + err)[-3000:])
+        # normalisation pass (function-pointer removal etc.); without it goto-instrument --dfcc 6.11 can hit an
+        # internal invariant (goto_inline parameter_assignments) on some linked binaries
+        an = os.path.join(scratch, 'an.gb')
+        rc, out, err, dt = run(['goto-instrument', '--remove-function-body', '__v_no_such_function', a, an], cwd=scratch, timeout=300)
+        if rc == 0 and os.path.exists(an):
+            a = an
         b = a
         if h.dfcc:
             b = os.path.join(scratch, 'b.gb')
